@@ -45,7 +45,13 @@ Expected(d) ==
                IN [status |-> "optimized", num |-> Dot(obj, b.v), den |-> b.v[1]]
 TooBig(d) == Len(d.H) > 9 \/ \E i \in 1..Len(d.H) : \E j \in 1..Len(d.H[i].v) : Abs(d.H[i].v[j]) > 30
 V1(b, why) == IF b THEN "ok" ELSE why
-RowsOf(cs, m) == [i \in 1..Len(cs) |-> [k |-> cs[i].k, v |-> Pad(cs[i].v, m)]]
+\* a strict inequality without variables (0 > b): Constraint_System::has_strict_inequalities() does not count it, the library accepts it (or
+\* not: the rejection is not asserted); accepted, it is the tautology or the contradiction it denotes
+TrivRow(r) == \A j \in 2..Len(r.v) : r.v[j] = 0
+NontrivStrict(r) == r.k = "gt" /\ ~TrivRow(r)
+TrivStrict(r) == r.k = "gt" /\ TrivRow(r)
+Closed(r, m) == IF r.k = "gt" THEN [k |-> "ge", v |-> Pad(<<IF r.v[1] > 0 THEN 0 ELSE -1>>, m)] ELSE [k |-> r.k, v |-> Pad(r.v, m)]
+RowsOf(cs, m) == [i \in 1..Len(cs) |-> Closed(cs[i], m)]
 \* verdict and next data for one recorded call
 Step(e, d) ==
   LET m == d.n + 1  op == e.op
@@ -55,9 +61,13 @@ Step(e, d) ==
      ELSE IF ~d.alive \/ e.exc = "dead" THEN <<"und", d>>
      ELSE IF op = "clear" THEN <<V1(noexc /\ e.dim = 0, "C06:clear"), [alive |-> TRUE, n |-> 0, H |-> <<>>, ints |-> {}, obj |-> <<0>>, max |-> TRUE]>>
      ELSE IF op = "add_constraint" THEN
-          (IF e.n > d.n \/ e.k = "gt" THEN inv(TRUE) ELSE <<V1(noexc, "C06:unexpected-exception"), [d EXCEPT !.H = Append(d.H, [k |-> e.k, v |-> Pad(e.v, m)])]>>)
+          (IF e.n > d.n \/ NontrivStrict([k |-> e.k, v |-> e.v]) THEN inv(TRUE)
+           ELSE IF TrivStrict([k |-> e.k, v |-> e.v]) /\ e.exc = "invalid_argument" THEN <<"ok", d>>
+           ELSE <<V1(noexc, "C06:unexpected-exception"), [d EXCEPT !.H = Append(d.H, Closed([k |-> e.k, v |-> e.v], m))]>>)
      ELSE IF op = "add_constraints" THEN
-          (IF (Len(e.cs) > 0 /\ e.n > d.n) \/ (\E i \in 1..Len(e.cs) : e.cs[i].k = "gt") THEN inv(TRUE) ELSE <<V1(noexc, "C06:unexpected-exception"), [d EXCEPT !.H = d.H \o RowsOf(e.cs, m)]>>)
+          (IF (Len(e.cs) > 0 /\ e.n > d.n) \/ (\E i \in 1..Len(e.cs) : NontrivStrict(e.cs[i])) THEN inv(TRUE)
+           ELSE IF (\E i \in 1..Len(e.cs) : TrivStrict(e.cs[i])) /\ e.exc = "invalid_argument" THEN <<"ok", d>>
+           ELSE <<V1(noexc, "C06:unexpected-exception"), [d EXCEPT !.H = d.H \o RowsOf(e.cs, m)]>>)
      ELSE IF op = "add_dims" THEN <<V1(noexc /\ e.dim = d.n + e.b, "C06:add_space_dimensions_and_embed"),
                                     [d EXCEPT !.n = d.n + e.b, !.H = [i \in 1..Len(d.H) |-> [k |-> d.H[i].k, v |-> Pad(d.H[i].v, m + e.b)]], !.obj = Pad(d.obj, m + e.b)]>>
      ELSE IF op = "add_ints" THEN (IF \E i \in 1..Len(e.vs) : e.vs[i] >= d.n THEN inv(TRUE) ELSE <<V1(noexc, "C06:unexpected-exception"), [d EXCEPT !.ints = d.ints \cup {e.vs[i] + 2 : i \in 1..Len(e.vs)}]>>)
